@@ -231,14 +231,15 @@ PROPS["C08"] = {
     "no_kani": True,
     "needs_rand_090": False,
     "mirlex": True,
-    "mirlex_labels": ["X1", "X2", "X3", "X4", "X5", "X7"],
+    "mirlex_labels": ["X1", "X2", "X3", "X4", "X5", "X7", "X8"],
     "functions": ["MIR of <ec_core::operator::selector::lexicase::Lexicase as Selector<P>>::select"],
     "bounds": {
         "quick": "populations x cases (n,m) in {(0,0),(0,2),(1,0),(1,2),(2,1),(2,2),(3,2),(2,3),(3,3),(4,2)}, every result a SYMBOLIC unbounded integer (ties, duplicates and every relative "
                  "order decided by z3 at the three-way comparison), both polarities (scores / errors), every case order and every final order of the survivors (the shuffle models fork "
                  "over all permutations): returned individual in REF(sigma), candidate set before the final choice == REF(sigma), not Pareto-dominated, Ok iff non-empty; every survivor can be the final pick (X4); every fork carries its probability (shuffle 1/k!, random_range 1/len) and on four concrete result matrices "
                  "per size (specialists, all tied, one dominant, staircase; n*m <= 9) the exact law of the winner equals 'fraction of case orders survived, shared equally among the survivors' (X7)",
-        "thorough": "as quick plus (4,3) and (3,4)",
+        "thorough": "as quick plus (4,3) and (3,4); both tiers also run (2 individuals, 1 case configured, 2 results held), (3,1,2) and (2,2,3): a selector configured with FEWER cases than the individuals hold "
+                    "results considers the configured cases only (X8) and filters / chooses as prescribed on them",
     },
     "outside": "uniformity of SliceRandom::shuffle / random_range is rand's documented contract (modelled as equally likely outcomes); GIVEN it, the probability law of the statement is decided on four concrete "
                "matrices per size (X7) and follows from X2 + X4 for symbolic matrices; populations of more than 4 individuals / more than 3 cases; individuals with missing results (decided for <= 1 case under C06); "
